@@ -25,7 +25,9 @@ MustList(lvl) ==
          \cup (IF it.env # "" THEN {it.env} ELSE {})          \* the variable an item falls back to is shown with it
          : it \in {x \in LeavesOf(lvl) : ~Hidden(x)}}
   \cup UNION {{p.metavar, p.help} : p \in PosItemsOf(lvl)}
-  \cup UNION {{c.names[1], c.help} : c \in LevelCmds(lvl)}
+  \* a command is listed with its help text or, lacking one, with the whole first line of its description
+  \cup UNION {{c.names[1]} \cup (IF c.help # "" THEN {c.help} ELSE IF "listed" \in DOMAIN c THEN RangeOf(c.listed) ELSE {})
+              : c \in LevelCmds(lvl)}
   \cup RangeOf(lvl.help_names) \cup (IF lvl.version THEN RangeOf(lvl.ver_names) ELSE {})
 \* what must appear nowhere in the text
 MustNotMention(lvl) ==
